@@ -43,7 +43,7 @@ RULE = ('dynamic: case = (public function from the call table, scenario = genera
         'function-local import, enumerated exhaustively; non-trivial = site that resolves into another '
         'module.  Distinct by (function, scenario digest) resp. by site.')
 ASSUMPTIONS = ['float-valued results of different memory layouts may differ in the last bits (BLAS/SIMD paths); '
-               'tolerance 1e-12 relative', 'calls through local aliases are covered only dynamically',
+               'tolerance 1e-12 relative + 1e-13 x the largest argument magnitude (results that are small by cancellation)', 'calls through local aliases are covered only dynamically',
                'rdp.plot_frame (file/GUI side effects) and the legacy evaluation.compute_global_segment_cost '
                '(known finding) are excluded from the dynamic table']
 
@@ -322,15 +322,32 @@ def snapshot(obj):
     return ('v', repr(obj))
 
 
-def same(a, b, exact=True, tol=1e-12):
-    """Structural comparison of two results.  Returns None if equal, else a short description."""
+def arg_scale(args):
+    """Largest finite magnitude among the numeric array arguments of a call (0 if none)."""
+    m = 0.0
+    for a in args:
+        if isinstance(a, (list, tuple)):
+            m = max(m, arg_scale(a))
+        elif isinstance(a, np.ndarray) and a.dtype.kind in 'fiu' and a.size:
+            with np.errstate(all='ignore'):
+                v = np.abs(a.astype(float))
+                v = v[np.isfinite(v)]
+            if v.size:
+                m = max(m, float(v.max()))
+    return m
+
+
+def same(a, b, exact=True, tol=1e-12, floor=0.0):
+    """Structural comparison of two results.  Returns None if equal, else a short description.
+    `floor` is an absolute allowance for float values (rounding noise of a result that is small
+    because the inputs cancel: 1e-13 x the magnitude of the arguments)."""
     if a is None or b is None:
         return None if a is b else 'None vs %r' % (b if a is None else a,)
     if isinstance(a, (tuple, list)) or isinstance(b, (tuple, list)):
         if not isinstance(a, (tuple, list)) or not isinstance(b, (tuple, list)) or len(a) != len(b):
             return 'sequence shape %r vs %r' % (type(a).__name__, type(b).__name__)
         for i, (u, v) in enumerate(zip(a, b)):
-            d = same(u, v, exact, tol)
+            d = same(u, v, exact, tol, floor)
             if d:
                 return '[%d] %s' % (i, d)
         return None
@@ -338,7 +355,7 @@ def same(a, b, exact=True, tol=1e-12):
         if not (isinstance(a, dict) and isinstance(b, dict)) or sorted(map(str, a)) != sorted(map(str, b)):
             return 'dict keys differ'
         for k in a:
-            d = same(a[k], b[k], exact, tol)
+            d = same(a[k], b[k], exact, tol, floor)
             if d:
                 return '[%r] %s' % (k, d)
         return None
@@ -363,7 +380,7 @@ def same(a, b, exact=True, tol=1e-12):
     with np.errstate(all='ignore'):
         inf_ok = np.array_equal(np.isinf(fa), np.isinf(fb)) and np.array_equal(np.sign(fa[np.isinf(fa)]), np.sign(fb[np.isinf(fb)]))
         fin = ~(nan_a | np.isinf(fa) | np.isinf(fb))
-        close = np.all(np.abs(fa[fin] - fb[fin]) <= tol * np.maximum(np.abs(fa[fin]), np.abs(fb[fin])) + 1e-300)
+        close = np.all(np.abs(fa[fin] - fb[fin]) <= tol * np.maximum(np.abs(fa[fin]), np.abs(fb[fin])) + 1e-300 + floor)
     return None if (inf_ok and close) else 'values %r vs %r' % (fa.tolist(), fb.tolist())
 
 
@@ -535,7 +552,7 @@ def oracle_dyn(case, rec):
     integral = all(float(v).is_integer() for p in case['pts'] for v in p) and case['family'] == 'integral'
     for variant in ('F', 'view') + (('int64',) if integral else ()):
         n2 = len(rec.violations)
-        o, b, a, _ = _invoke(rec, fn, f, case, variant)
+        o, b, a, vargs = _invoke(rec, fn, f, case, variant)
         msgs = rec.violations[n2:]
         del rec.violations[n2:]
         if b != a:
@@ -543,7 +560,7 @@ def oracle_dyn(case, rec):
         if (o is FAILED) != failed_base:
             rec.fail('layout:%s:%s' % (variant, fn), 'raises only for one representation: %r' % (msgs[:1],))
         elif not failed_base:
-            d = same(out, o, exact=False)
+            d = same(out, o, exact=False, floor=1e-13 * arg_scale(vargs))
             if d:
                 rec.fail('layout:%s:%s' % (variant, fn), d)
         rec.tag('variant:' + variant)
@@ -583,7 +600,7 @@ def oracle_dtype(case, rec):
     f = funcs[fn]
     n0 = len(rec.violations)
     out, b0, a0, _ = _invoke(rec, fn, f, case, 'C')
-    o2, b1, a1, _ = _invoke(rec, fn, f, case, 'int64')
+    o2, b1, a1, vargs = _invoke(rec, fn, f, case, 'int64')
     del rec.violations[n0:]
     if b0 != a0 or b1 != a1:
         rec.fail('impure:%s' % fn, 'argument modified')
@@ -595,7 +612,7 @@ def oracle_dtype(case, rec):
     if (out is FAILED) != (o2 is FAILED):
         rec.fail(label, '%s raises only for one of the int64 / float64 representations' % fn)
     elif out is not FAILED:
-        d = same(out, o2, exact=False)
+        d = same(out, o2, exact=False, floor=1e-13 * arg_scale(vargs))
         if d:
             rec.fail(label, '%s: %s' % (fn, d[:300]))
         rec.nontrivial = True
